@@ -79,7 +79,7 @@ var FaultKinds = []string{
 	"omit-param-TYPE", "omit-param-ENUM", "omit-param-MACRO", "omit-param-PASTE", "omit-param-TAG", "omit-param-Tags", "omit-param-Protocol",
 	"omit-param-Method", "omit-param-JSIGHT", "omit-param-BaseUrl", "omit-param-SERVER", "omit-param-Title", "omit-param-Version", "omit-param-URL",
 	"undefined-type-shortcut", "undefined-type-array", "undefined-type-rule", "undefined-type-allOf", "undefined-type-param", "undefined-type-or",
-	"undefined-enum", "undefined-macro", "undefined-tag", "undefined-tag-like-auto", "undefined-tag-second-Tags", "similar-path-leading-param", "dup-through-second-PASTE",
+	"undefined-enum", "undefined-macro", "undefined-tag", "undefined-tag-like-auto", "undefined-tag-second-Tags", "similar-path-leading-param", "dup-through-second-PASTE", "second-Body-after-own-body",
 }
 
 // InjectFault puts exactly one fault of a drawn kind into a copy of the valid
@@ -264,6 +264,14 @@ func InjectFaultOfKind(t *rapid.T, doc0 *Doc, only string) (*Doc, Fault, bool) {
 				} else {
 					*lst = insertAfter(*lst, i, c)
 				}
+				return []int{d.ID, c.ID}
+			})
+		}
+		if (IsCode(d.Kw) || d.Kw == "Request") && d.Schema != nil && d.Child("Body") == nil {
+			// the body is given on the directive itself and once more as a Body child
+			add("second-Body-after-own-body", func() []int {
+				c := &Dir{ID: f.id(), Kw: "Body", Schema: &Schema{Notation: "any", AsParam: true}}
+				d.Children = append(d.Children, c)
 				return []int{d.ID, c.ID}
 			})
 		}
